@@ -42,10 +42,6 @@ theorem Symm.app_eq {n : Nat} (hn : n ≤ 8) (w : Symm) {x y : Int} (hx : SafeC 
     simp only [Symm.app, Symm.prod, e, Sym.mul_app]
     exact ⟨e', s1', s2'⟩
 
-/-- type code of a direction -/
-def dirCode : Dir → Nat
-  | .left => Facts.mtSlideLeft | .right => Facts.mtSlideRight | .up => Facts.mtSlideUp | .down => Facts.mtSlideDown
-
 /-- **`TransformMove` is the list-level action** (and does not panic) for every word of the basic maps,
 on every move whose coordinates lie in `[-100, 100]` (in particular every move with an on-board origin,
 legal or not, with any type code and any drop word). -/
